@@ -145,6 +145,10 @@ module Z :
 
   val eqb : z -> z -> bool
 
+  val max : z -> z -> z
+
+  val min : z -> z -> z
+
   val abs : z -> z
 
   val to_nat : z -> nat
@@ -157,7 +161,13 @@ module Z :
 
   val div_eucl : z -> z -> z * z
 
+  val div : z -> z -> z
+
   val modulo : z -> z -> z
+
+  val even : z -> bool
+
+  val odd : z -> bool
 
   val ggcd : z -> z -> z * (z * z)
 
@@ -173,6 +183,8 @@ val concat : 'a1 list list -> 'a1 list
 val map : ('a1 -> 'a2) -> 'a1 list -> 'a2 list
 
 val flat_map : ('a1 -> 'a2 list) -> 'a1 list -> 'a2 list
+
+val fold_right : ('a2 -> 'a1 -> 'a1) -> 'a1 -> 'a2 list -> 'a1
 
 val forallb : ('a1 -> bool) -> 'a1 list -> bool
 
@@ -516,6 +528,54 @@ val wave_mode :
   ops -> car -> car -> car -> car -> car -> car -> car -> bool -> car -> car
   -> car * car
 
+val fftfreq : z -> z -> z
+
+val rfftfreq : z -> z -> z
+
+val mesh_axis : bool -> nat -> nat -> nat
+
+val rfft_component : bool -> nat -> nat
+
+val wn_1d : bool -> nat -> z -> nat -> z -> z
+
+val wavenumber : bool -> nat -> z -> nat -> z list -> z
+
+val wn_axis_len : bool -> nat -> z -> nat -> z
+
+val wavenumber_shape : nat -> z -> z list
+
+val wn : nat -> z -> nat -> z list -> z
+
+val wnvec : nat -> z -> z list -> z list
+
+val low_pass_axis : nat -> z -> z -> z list -> bool
+
+val norm2 : z list -> z
+
+val low_pass_radial : nat -> z -> z -> z list -> bool
+
+val oddball_mask : nat -> z -> z list -> bool
+
+val axis_plain : z -> z -> bool -> bool
+
+val scaling_halvings : nat -> z -> z -> z -> z list -> z
+
+val mode_denoms : z -> z * z
+
+val slice_left : z -> z
+
+val slice_right : z -> z
+
+val in_left : z -> z -> z -> bool
+
+val in_right : z -> z -> z -> bool
+
+val in_last : z -> z -> z -> bool
+
+val wrap_index : z -> z -> z
+
+val dealias_keeps : z -> z -> z -> z -> bool
+
 val aff : z -> z -> z -> z
 
 val affx : z -> z -> z -> z
@@ -561,5 +621,7 @@ val qcs : q list -> car list
 val unqcs : car list -> q list
 
 val run_conv : q list -> q list
+
+val run_c04 : z -> q list -> q list
 
 val run : z -> q list -> q list
